@@ -249,13 +249,14 @@ Proof.
   cbn [andb] in Hns. apply negb_false_iff in Hns. exact Hns.
 Qed.
 
-(** non-vacuity: an entity value with elements (one with attributes), a comment, a PI, a CDATA section, a
-    nested reference and a `<` written as a character reference, used in content; another entity in an
-    attribute value and a default:
-    <!DOCTYPE r [<!ENTITY b "z&#65;"><!ENTITY m "<i x='1' y='&#65;'>x&b;</i><!-- c --><?p d?><![CDATA[<]]>&#60;j/>">
-                 <!ATTLIST r k CDATA "&b;">]><r k="&b;">&m;&b;</r> *)
+(** non-vacuity: the usual double escape <!ENTITY l "&#38;#60;">; an entity value with elements (one with
+    attributes), a comment, a PI, a CDATA section, a nested reference and a `<` written as a character
+    reference, used in content; entities in an attribute value and a default:
+    <!DOCTYPE r [<!ENTITY l "&#38;#60;"><!ENTITY b "z&#65;&l;">
+                 <!ENTITY m "<i x='1' y='&#65;'>x&b;</i><!-- c --><?p d?><![CDATA[<]]>&#60;j/>">
+                 <!ATTLIST r k CDATA "&b;">]><r k="&b;">&m;&b;&l;</r> *)
 Definition ex_markup : str :=
-  [60;33;68;79;67;84;89;80;69;32;114;32;91;60;33;69;78;84;73;84;89;32;98;32;34;122;38;35;54;53;59;34;62;60;33;69;78;84;73;84;89;32;109;32;34;60;105;32;120;61;39;49;39;32;121;61;39;38;35;54;53;59;39;62;120;38;98;59;60;47;105;62;60;33;45;45;32;99;32;45;45;62;60;63;112;32;100;63;62;60;33;91;67;68;65;84;65;91;60;93;93;62;38;35;54;48;59;106;47;62;34;62;60;33;65;84;84;76;73;83;84;32;114;32;107;32;67;68;65;84;65;32;34;38;98;59;34;62;93;62;60;114;32;107;61;34;38;98;59;34;62;38;109;59;38;98;59;60;47;114;62].
+  [60;33;68;79;67;84;89;80;69;32;114;32;91;60;33;69;78;84;73;84;89;32;108;32;34;38;35;51;56;59;35;54;48;59;34;62;60;33;69;78;84;73;84;89;32;98;32;34;122;38;35;54;53;59;38;108;59;34;62;60;33;69;78;84;73;84;89;32;109;32;34;60;105;32;120;61;39;49;39;32;121;61;39;38;35;54;53;59;39;62;120;38;98;59;60;47;105;62;60;33;45;45;32;99;32;45;45;62;60;63;112;32;100;63;62;60;33;91;67;68;65;84;65;91;60;93;93;62;38;35;54;48;59;106;47;62;34;62;60;33;65;84;84;76;73;83;84;32;114;32;107;32;67;68;65;84;65;32;34;38;98;59;34;62;93;62;60;114;32;107;61;34;38;98;59;34;62;38;109;59;38;98;59;38;108;59;60;47;114;62].
 
 Example accepted_wf_markup_nonvacuous :
   (exists d, from_raw ex_markup = OOk ([], d)) /\ KnownD04_doc ex_markup = false /\ markup_entities ex_markup = true
